@@ -175,6 +175,7 @@ func cmdCheck(args []string) int {
 	var jobs []job
 	var frs []*FuncResult
 	var machinery []string
+	var genViol []OblResult
 	assumptions := map[string]bool{}
 	externs := map[string]bool{}
 	usedSpecs := map[string]bool{}
@@ -190,10 +191,17 @@ func cmdCheck(args []string) int {
 			fr, err := w.genFunction(k, conc)
 			if err != nil {
 				machinery = append(machinery, fmt.Sprintf("%s: %v", k, err))
+				genViol = append(genViol, OblResult{Func: k, Name: k + "#translation", Kind: "translation", Status: "undecided", Info: "the function under contract could not be translated", Output: err.Error()})
 				continue
 			}
 			for _, e := range fr.Errs {
 				machinery = append(machinery, fmt.Sprintf("%s: %s", k, e))
+			}
+			if len(fr.Errs) > 0 {
+				// the code of a function under contract left the translatable subset (a loop without invariant block, a
+				// call without contract, an unmodelled instruction): its obligations are not all generated, so the
+				// property is not decided for it on this tree - reported like an undischarged obligation
+				genViol = append(genViol, OblResult{Func: k, Name: k + "#translation", Kind: "translation", Status: "undecided", Info: "the function under contract could not be translated completely: " + strings.Join(fr.Errs, "; "), Output: strings.Join(fr.Errs, "\n")})
 			}
 			frs = append(frs, fr)
 			for _, a := range fr.Assumes {
@@ -290,6 +298,7 @@ func cmdCheck(args []string) int {
 		}
 		rwg.Wait()
 	}
+	results = append(results, genViol...)
 	vacuityRun, vacuityOK := 0, 0
 	for i, c := range covers {
 		if c == "none" {
